@@ -282,7 +282,13 @@ func (s *Statement) Pipeline(task *pod_info.PodInfo, hostname string, updateTask
 		nextNode:                  hostname,
 		message:                   fmt.Sprintf("Pod %s/%s was pipelined to node %s", task.Namespace, task.Name, node.Name),
 		reverseOperation: func() error {
-			return s.unpipeline(task, previousNode, previousStatus, previousGpuGroup, previousResourceClaimInfo, previousIsVirtualStatus)
+			err := s.unpipeline(task, previousNode, previousStatus, previousGpuGroup, previousResourceClaimInfo, previousIsVirtualStatus)
+			if err == nil && isSharedAndMoveToDifferentGPU {
+				// the evicted copy of the task is still accounted on the node; give the node its entry back
+				// so that un-evicting updates it instead of adding the task a second time
+				node.RestoreTaskEntry(task)
+			}
+			return err
 		},
 	})
 	task.IsVirtualStatus = true
